@@ -217,7 +217,9 @@ class World:
         elif a == 'unsubscribe':
             reg.unsubscribe([self.I0], self.P)
         elif a == 'register-in-base':
-            self.base.register([self.I1], self.P, '', self.fNEW)
+            # under the name only the base has ('b'): the registry's own
+            # registration for '' would shadow anything the base adds there
+            self.base.register([self.I1], self.P, 'b', self.fNEW)
         elif a == 'rebase-registry':
             reg.__bases__ = (self.base2,)
         elif a == 'rebase-interface':
@@ -232,6 +234,11 @@ class World:
             self.log.append(('reentrant', repr(reg.lookupAll([self.I0], self.P)),
                              repr(reg.subscriptions([self.I1], self.P)),
                              repr(reg.lookup([self.I1], self.P, 'b'))))
+        elif a == 'reenter-then-register-in-base':
+            # an answer is computed and cached by the re-entrant lookup, and only
+            # then does a base registry change
+            self.log.append(('reentrant', repr(reg.lookup([self.I1], self.P, 'b'))))
+            self.base.register([self.I1], self.P, 'b', self.fNEW)
         elif a == 'gc':
             gc.collect()
         elif a == 'raise':
@@ -252,6 +259,8 @@ class World:
             return
         if a == 'register-then-raise':
             a = 'register-better'
+        if a == 'reenter-then-register-in-base':
+            a = 'register-in-base'
         self.do_action(a)
 
     # -- entry points --------------------------------------------------------
@@ -273,6 +282,8 @@ class World:
             return reg.lookup(req, P, 'nope', SENT) is SENT
         if entry == 'lookup-e':
             return reg.lookup(req, P, 'e')
+        if entry == 'lookup-b':
+            return reg.lookup(req, P, 'b')
         if entry == 'lookup1':
             return reg.lookup1(I1, P, '')
         if entry == 'lookupAll':
@@ -299,13 +310,13 @@ class World:
         raise AssertionError(entry)
 
 
-ENTRIES = ['lookup', 'lookup-default', 'lookup1', 'lookupAll', 'names', 'subscriptions',
+ENTRIES = ['lookup', 'lookup-default', 'lookup-b', 'lookup1', 'lookupAll', 'names', 'subscriptions',
            'queryAdapter', 'adapter_hook', 'queryMultiAdapter', 'subscribers', 'I(obj)']
-LAZY_OK = {'lookup', 'lookup-default', 'lookupAll', 'names', 'subscriptions'}
+LAZY_OK = {'lookup', 'lookup-default', 'lookup-b', 'lookupAll', 'names', 'subscriptions'}
 ACTIONS = ['nop', 'register-better', 'register-other-name', 'unregister-winner', 'subscribe',
            'unsubscribe', 'register-in-base', 'rebase-registry', 'rebase-interface', 'changed',
            'lookup.changed', 'reenter-same', 'reenter-other', 'gc', 'raise',
-           'register-then-raise', 'changed-then-gc']
+           'register-then-raise', 'changed-then-gc', 'reenter-then-register-in-base']
 SITES = ['required-iter', 'providedBy', 'conform', 'factory', 'generation', 'value-destructor',
          'uncached_lookup:before', 'uncached_lookup:after',
          'uncached_lookupAll:before', 'uncached_lookupAll:after',
@@ -618,7 +629,7 @@ MUTATORS = {
     'unregister': lambda w: w.reg.unregister([w.I0], w.P, ''),
     'subscribe': lambda w: w.reg.subscribe([w.I1], w.P, w.fNEW),
     'unsubscribe': lambda w: w.reg.unsubscribe([w.I0], w.P),
-    'register-in-base': lambda w: w.base.register([w.I1], w.P, '', w.fNEW),
+    'register-in-base': lambda w: w.base.register([w.I1], w.P, 'b', w.fNEW),
     'rebase-registry': lambda w: setattr(w.reg, '__bases__', (w.base2,)),
     'classImplements': lambda w: classImplements(w.K, w.X),
     'rebase-interface': lambda w: setattr(w.I1, '__bases__', (w.X,)),
@@ -919,7 +930,7 @@ def run(ctx):
     MUT_ACTIONS = ('register-better', 'unregister-winner', 'subscribe', 'unsubscribe',
                    'register-in-base', 'rebase-registry', 'rebase-interface', 'changed',
                    'lookup.changed', 'register-then-raise', 'changed-then-gc', 'reenter-other',
-                   'reenter-same', 'gc')
+                   'reenter-same', 'gc', 'reenter-then-register-in-base')
     if quick:
         mc = [c for c in cases if c[3] in MUT_ACTIONS and
               (c[2].startswith('uncached') or c[2] in ('generation', 'required-iter', 'value-destructor'))]
@@ -972,7 +983,9 @@ def run(ctx):
             plans.append((flavour, mut, entries, bound, split, opcode))
         for flavour in ('adapter', 'verifying'):
             for mut in MUTATORS:
-                for e in SCHED_ENTRIES + ['lookup-e']:
+                for e in SCHED_ENTRIES + ['lookup-e', 'lookup-b']:
+                    if e == 'lookup-b' and mut != 'register-in-base':
+                        continue      # only a base registration changes that answer
                     if (mut == 'unregister-unrelated-extendor') != (e in ('lookup-e', 'subscriptions', 'lookupAll')) \
                             and (mut == 'unregister-unrelated-extendor' or e == 'lookup-e'):
                         continue      # the extendors walk: only these pairings add anything
